@@ -339,15 +339,36 @@ func clip(b []byte) []byte {
 }
 
 // round trips: sonic's encoder -> sonic's decoder, and against the reference encoder.
-func c07RoundTripBody() (func(x *engine.X), int) {
+//
+// reuse=true: the Frame value is not fresh — it carried one or two earlier payloads of other length classes
+// (SetPayload without Reset in between, which the API allows); the frame finally encoded must still round-trip.
+func c07RoundTripBody(reuse bool) (func(x *engine.X), int) {
 	lengths := []int{0, 1, 125, 126, 127, 65535, 65536, 70000}
 	n := 256 * 2 * len(lengths)
+	firstBytes := []byte{0x82, 0x01, 0x89}
+	if reuse {
+		n = len(firstBytes) * 2 * len(lengths)
+	}
 	return func(x *engine.X) {
 		k := x.Pick(n, "header x length")
-		b0 := byte(k % 256)
-		masked := (k/256)%2 == 1
-		l := lengths[k/512]
-		x.Note("round trip b0=%02x masked=%v len=%d", b0, masked, l)
+		var b0 byte
+		var masked bool
+		var l int
+		var history []int
+		if reuse {
+			b0 = firstBytes[k%len(firstBytes)]
+			masked = (k/len(firstBytes))%2 == 1
+			l = lengths[k/(2*len(firstBytes))]
+			history = append(history, lengths[x.Pick(len(lengths), "length the frame carried before")])
+			if h := x.Pick(len(lengths)+1, "length the frame carried before that"); h > 0 {
+				history = append([]int{lengths[h-1]}, history...)
+			}
+		} else {
+			b0 = byte(k % 256)
+			masked = (k/256)%2 == 1
+			l = lengths[k/512]
+		}
+		x.Note("round trip b0=%02x masked=%v len=%d earlier payload lengths on the same Frame=%v", b0, masked, l, history)
 		x.Nontrivial()
 		payload := make([]byte, l)
 		for i := range payload {
@@ -358,6 +379,9 @@ func c07RoundTripBody() (func(x *engine.X), int) {
 			f[0] = b0
 			if masked {
 				f.SetIsMasked()
+			}
+			for _, h := range history {
+				f.SetPayload(make([]byte, h))
 			}
 			f.SetPayload(payload)
 			if masked {
@@ -405,8 +429,8 @@ func c07DFS(tier, which string) *engine.DFS {
 		ins := c07Inputs(tier)
 		return &engine.DFS{Name: "decode@" + tier, Body: c07Body(ins, tier), Threads: 16, ShardDepth: 1, MaxDeviations: 0}
 	default:
-		body, _ := c07RoundTripBody()
-		return &engine.DFS{Name: "roundtrip@" + tier, Body: body, Threads: 16, ShardDepth: 1, MaxDeviations: 0}
+		body, _ := c07RoundTripBody(which == "reuse")
+		return &engine.DFS{Name: which + "@" + tier, Body: body, Threads: 16, ShardDepth: 1, MaxDeviations: 0}
 	}
 }
 
@@ -415,8 +439,9 @@ func C07(tier string) *engine.Report {
 	var tot engine.DFSTotals
 	tot.Add(c07DFS(tier, "decode").Run(), rep)
 	tot.Add(c07DFS(tier, "roundtrip").Run(), rep)
+	tot.Add(c07DFS(tier, "reuse").Run(), rep)
 	tot.Fill(rep, "enumerated inputs (all strings <=4 over a 9-byte alphabet; structured product of first byte x mask x length encoding x declared length incl. >= 2^63 x payload presence; two frames back to back) "+
-		"x cut sets (whole, every single cut, pairs on short inputs, byte by byte) through the real FrameCodec.Decode, compared with an independent parser; plus encoder->decoder round trips for all 256 first bytes x mask x 8 length classes. "+
+		"x cut sets (whole, every single cut, pairs on short inputs, byte by byte) through the real FrameCodec.Decode, compared with an independent parser; plus encoder->decoder round trips for all 256 first bytes x mask x 8 length classes on a fresh Frame, and 3 first bytes x mask x 8 classes on a Frame that carried one or two earlier payloads of every class. "+
 		"non-trivial = the input was cut at least once, or a round trip", 0)
 	rep.Coverage["inputs"] = len(c07Inputs(tier))
 	return rep
